@@ -52,7 +52,7 @@ for i in ids:
 
 m = {
  "version": 1,
- "setup_cmd": "python3 vf/build.py hooks asan tsan",
+ "setup_cmd": "python3 vf/build.py hooks asan tsan dbg",
  "hooks": {"guard": "DISPATCH_VERIF",
            "enable": "cmake -DCMAKE_C_FLAGS=-DDISPATCH_VERIF=1 (vf/build.py builds /repo out of tree into /verif/build/<flavor>)",
            "baseline_off_cmd": "scripts/baseline_off.sh",
